@@ -87,7 +87,27 @@ static std::string mutateArrays(const Src& s, Rng& rng, std::vector<std::string>
     for (int m = 0; m < nm && !arr.empty(); ++m) {
         const size_t i = rng.below(arr.size());
         eref::Array& a = arr[i];
-        switch (rng.below(8)) {
+        switch (rng.below(9)) {
+        case 8: {       // a family of arrays that belong together, sized after their anchor array - then, half of the time, one member resized
+            struct Fam { const char* anchor; std::vector<Known> members; };
+            static const std::vector<Fam> FAMS = {
+                {"KEYWORDS", {{"LGRS", eref::CHAR}, {"NUMLX", eref::INTE}, {"NUMLY", eref::INTE}, {"NUMLZ", eref::INTE}}},
+                {"GRIDHEAD", {{"NNCHEAD", eref::INTE}, {"NNC1", eref::INTE}, {"NNC2", eref::INTE}}},
+                {"SEQNUM", {{"LGRNAMES", eref::CHAR}, {"LGR", eref::CHAR}, {"LGRHEADI", eref::INTE}, {"ENDLGR", eref::MESS}}},
+                {"TIME", {{"DATE", eref::INTE}, {"WELLETC", eref::CHAR}, {"CONIPOS", eref::INTE}, {"CONJPOS", eref::INTE}, {"CONKPOS", eref::INTE}}}};
+            const Fam& f = FAMS[rng.below(FAMS.size())];
+            size_t at = arr.size(), n = 3;
+            for (size_t q = 0; q < arr.size(); ++q) if (arr[q].name == f.anchor) { at = q + 1; n = (size_t)arr[q].count(); break; }
+            if (at == arr.size() && rng.chance(0.7)) { ops.push_back("family-insert(no anchor)"); break; }
+            const size_t victim = rng.chance(0.5) ? rng.below(f.members.size()) : f.members.size();
+            for (size_t q = 0; q < f.members.size(); ++q) {
+                eref::Array c; c.name = f.members[q].name; c.type = f.members[q].type; c.width = 8;
+                size_t sz = std::min<size_t>(n, 200000);
+                if (q == victim) { size_t w[] = {0, 1, sz > 0 ? sz - 1 : 0, sz + 1}; sz = w[rng.below(4)]; }
+                resize(c, sz);
+                arr.insert(arr.begin() + std::min(at + q, arr.size()), c);
+            }
+            ops.push_back(std::string("family-insert:") + f.anchor); break; }
         case 0: case 1: {       // resize consistently
             const size_t n = (size_t)a.count();
             size_t want[] = {0, 1, n > 0 ? n - 1 : 0, n + 1, n / 2, 2 * n + 1, 3};
